@@ -24,7 +24,7 @@ import treeio
 import parsergen
 from checks import C01
 
-THEOREMS = ["C02_total", "C02_total_checked", "C02_linear", "C02_linear_checked", "C02_work_is_tree_size", "C02_terminates", "C02_terminates_checked", "C02_errors_wellformed",
+THEOREMS = ["C02_parse_spec", "C02_total", "C02_total_checked", "C02_linear", "C02_linear_checked", "C02_work_is_tree_size", "C02_terminates", "C02_terminates_checked", "C02_errors_wellformed",
             "C02_token_stream_total", "C02_reachable_states_tile"]
 TRUSTED = [
     "Coq 8.16.1 kernel; vm_compute for the reflective obligations on the regenerated grammar (chk_all, bchk_all, prog_msgs_ok); no axioms (Print Assumptions: closed under the global context)",
@@ -36,7 +36,25 @@ TRUSTED = [
     "Coq extraction (ExtrOcamlBasic only) and the OCaml driver coq/extract/syntax_driver.ml; Rust harness harness/src/bin/parsedump.rs; this Python driver and its oracle (lib/synlib.py: errors_oracle)",
 ]
 TRANSLATORS = C01.TRANSLATORS
-WORK_K = 48     # nodes + leaves of the tree <= WORK_K * (raw tokens + 1); measured maximum is reported in the evidence
+WORK_K = 48     # fallback bound when the proved constant cannot be read; the measured maximum is reported in the evidence
+
+
+def proved_K():
+    """the constant of C02_linear for the regenerated grammar (vm_compute of grammar_K), or None"""
+    import re
+    d = os.path.join(vlib.CACHE, "pa")
+    os.makedirs(d, exist_ok=True)
+    path = os.path.join(d, "C02_K.v")
+    open(path, "w").write("Require Import Coq.NArith.NArith TG.Proofs.ParserTop.\nEval vm_compute in (N.of_nat grammar_K).\n")
+    rc, out = vlib.sh(["coqc", "-noglob", "-Q", "gen", "TG.Gen", "-Q", "model", "TG.Model", "-Q", "proofs", "TG.Proofs", path],
+                      cwd=vlib.COQ, timeout=300)
+    for ext in (".vo", ".vok", ".vos", ".glob"):
+        try:
+            os.remove(os.path.join(d, "C02_K" + ext))
+        except OSError:
+            pass
+    m = re.search(r"=\s*(\d+)%N", out)
+    return int(m.group(1)) if (rc == 0 and m) else None
 
 
 def families(ctx):
@@ -64,9 +82,9 @@ def families(ctx):
     return out
 
 
-def tree_counts(r):
-    """(nodes, leaves) of a parsedump tree"""
-    nodes = leaves = 0
+def tree_counts(r, special=()):
+    """(nodes, leaves[, nodes of a kind in `special`]) of a parsedump tree"""
+    nodes = leaves = spec = 0
     stack = [r["tree"]]
     while stack:
         n = stack.pop()
@@ -74,8 +92,23 @@ def tree_counts(r):
             leaves += 1
         else:
             nodes += 1
+            if n[1] in special:
+                spec += 1
             stack.extend(n[4])
-    return nodes, leaves
+    return (nodes, leaves, spec) if special else (nodes, leaves)
+
+
+def direct_builder_kinds():
+    """node kinds that are NOT opened through ParserBase::start_node (hence not counted in the model's nstart):
+    Error (error_and_eat / error_and_recover call the builder directly) and the kinds used with start_node_at"""
+    import re
+    txt = open(os.path.join(vlib.COQ, "gen", "GenGrammar.v")).read()
+    ks = set(re.findall(r"PStartNodeAt \d+ S_(\w+)", txt))
+    ks.add("Error")
+    return ks
+
+
+BOUND = {"K": WORK_K}
 
 
 def total_oracle(text, r, ntok):
@@ -83,8 +116,8 @@ def total_oracle(text, r, ntok):
     if why:
         return why
     nodes, leaves = tree_counts(r)
-    if nodes + leaves > WORK_K * (ntok + 1):
-        return "parser work not linear: %d nodes + %d leaves for %d raw tokens (bound %d * (tokens + 1))" % (nodes, leaves, ntok, WORK_K)
+    if nodes + leaves > BOUND["K"] * (ntok + 1):
+        return "parser work not linear: %d nodes + %d leaves for %d raw tokens (bound %d * (tokens + 1))" % (nodes, leaves, ntok, BOUND["K"])
     return None
 
 
@@ -99,6 +132,8 @@ def run(ctx):
     fails = vlib.proof_step(ctx, "TG.Props.C02", THEOREMS, ["props/C02.vo"], TRUSTED, translators=TRANSLATORS)
     exe = vlib.build_model("syntax")
     sk, _tk, _d = treeio.kind_tables(vlib.REPO)
+    kp = proved_K() if not fails else None
+    BOUND["K"] = kp or WORK_K
     cases = families(ctx)
     texts = [t for _f, t in cases]
     t0 = time.time()
@@ -119,7 +154,8 @@ def run(ctx):
     ntoks = raw_token_counts(exe, texts)
     t_model = time.time() - t0
 
-    oracle_fail, corr_fail, model_bad = [], [], []
+    oracle_fail, corr_fail, model_bad, counter_bad = [], [], [], []
+    special = direct_builder_kinds()
     max_ratio, max_ratio_model, nerr, sigs = 0.0, 0.0, 0, set()
     for (fam, t), r, m, nt in zip(cases, real, model, ntoks):
         if "skipped" in r:
@@ -144,6 +180,11 @@ def run(ctx):
         try:
             nlex, nstart = [int(x) for x in m.split("|")[2].split()]
             max_ratio_model = max(max_ratio_model, (nlex + nstart) / (nt + 1.0))
+            # the real parser's work counters, read off its tree (rowan: one leaf per token(), one node per
+            # start_node / start_node_at): lex calls = leaves + 1, start_node calls = nodes - directly built nodes
+            n3, l3, sp3 = tree_counts(r, special)
+            if nlex != l3 + 1 or nstart != n3 - sp3:
+                counter_bad.append((fam, t, "model nlex=%d nstart=%d, real tree: leaves+1=%d, nodes-direct=%d" % (nlex, nstart, l3 + 1, n3 - sp3)))
         except (IndexError, ValueError):
             pass
 
@@ -167,15 +208,16 @@ def run(ctx):
         ctx.violation("C02 fails on the real parser: " + why_small,
                       {"property": "C02", "input": small, "family": fam, "original_input_len": len(t),
                        "observed": {"oracle": why_small, "real": _obs(r), "model": m[-1500:]},
-                       "expected": "parse returns without panic within the watchdog; errors have non-empty messages and ranges inside the text on char boundaries; work <= %d * (tokens + 1)" % WORK_K,
+                       "expected": "parse returns without panic within the watchdog; errors have non-empty messages and ranges inside the text on char boundaries; work <= %d * (tokens + 1)" % BOUND["K"],
                        "seed": ctx.seed})
         if len(reported) >= 5:
             break
-    if corr_fail or model_bad:
+    if corr_fail or model_bad or counter_bad:
         ex = [{"family": f, "input": t[:400], "real": a, "model": b} for f, t, a, b in corr_fail[:5]]
         ex += [{"family": f, "input": t[:400], "model": m} for f, t, m in model_bad[:5]]
-        fails.append({"kind": "correspondence", "file": "model-vs-parser tree+errors correspondence (%d disagreements, %d model panics/out-of-fuel)"
-                      % (len(corr_fail), len(model_bad)), "examples": ex})
+        ex += [{"family": f, "input": t[:400], "work_counters": m} for f, t, m in counter_bad[:5]]
+        fails.append({"kind": "correspondence", "file": "model-vs-parser tree+errors+work-counter correspondence (%d disagreements, %d model panics/out-of-fuel, %d counter mismatches)"
+                      % (len(corr_fail), len(model_bad), len(counter_bad)), "examples": ex})
     fam_count = {}
     for f, _t in cases:
         fam_count[f] = fam_count.get(f, 0) + 1
@@ -185,12 +227,15 @@ def run(ctx):
         "distinct_nontrivial_meaning": "distinct non-empty error-message sequences reported by the real parser",
         "errors_checked": nerr,
         "rule": "oracle on syntax::parse: returns without panic/abort/time-out; every error well-formed; nodes+leaves <= K*(raw tokens+1); model tree+errors == real",
-        "work_bound_K": WORK_K,
+        "work_bound_K": BOUND["K"],
+        "work_bound_K_source": "grammar_K of theorem C02_linear (vm_compute on the regenerated grammar)" if kp else "fallback constant (the proof cone did not build)",
         "max_work_ratio_real_tree": round(max_ratio, 2),
         "max_work_ratio_model_nlex_plus_nstart": round(max_ratio_model, 2),
         "input_distribution": fam_count,
         "samples": [t[:120] for _f, t in cases[:: max(1, len(cases) // 12)]][:12],
         "oracle_failures": len(oracle_fail), "correspondence_disagreements": len(corr_fail), "model_panics": len(model_bad),
+        "work_counter_mismatches": len(counter_bad),
+        "work_counters_rule": "model nlex == real leaves + 1 and model nstart == real nodes - nodes of kinds %s, on every case" % sorted(special),
         "max_nesting_depth": 256,
         "real_wall_s": round(t_real, 1), "model_wall_s": round(t_model, 1),
         "traces_validated_against_impl": len(cases) - len(oracle_fail),
